@@ -15,6 +15,15 @@ Header(q) == << 211, Len(q) \div 256, Len(q) % 256 >>
 Frame(q)  == LET h == Header(q) \o q IN h \o CrcBytes(h)
 Canonical(q) == Len(q) <= 1023 => Frame(q)[2] < 4          \* top six length bits zero
 
+\* ---- small helpers (beyond the listed properties) -----------------------------
+\* get_bit(data, n): bit n (0-based, MSB first) of a byte string
+GetBit(data, n) == BitAt(data, n + 1)
+\* len2bytes(payload): the two length bytes of the frame header
+Len2Bytes(q) == << Len(q) \div 256, Len(q) % 256 >>
+\* str(msg) shows the identity and then every public attribute, in decode order,
+\* as name=value; a stub ends with the Not_Yet_Implemented marker
+StrNames == [i \in 1 .. Len(attrs) |-> attrs[i].n]
+
 \* ---- identity-derived (C15) ------------------------------------------------
 \* "yes": implemented MSM1-7 of the seven constellations; "no": outside the MSM
 \* block 1070..1229; "free": reserved numbers inside the block (C15 leaves ismsm open)
